@@ -7,6 +7,7 @@ mod body;
 mod driver;
 mod oracle;
 mod sched;
+mod stackcache;
 mod worker;
 
 use vx::common::{finish, CheckCtx, Tier};
